@@ -8,6 +8,7 @@
 From Coq Require Import List ZArith Lia Bool Arith Sorting.Sorted.
 From Coq Require Import Strings.Byte.
 From WH Require Import lib.Bytes lib.Digits gen.Extracted model.Vaa model.Db proofs.DbProofs.
+From WH Require model.Processor model.ProcSpec model.System proofs.SystemProofs.
 Import ListNotations.
 Open Scope Z_scope.
 
@@ -147,6 +148,46 @@ Proof.
     repeat (destruct Hin as [<-|Hin]; [cbn in Ht, Hs; try discriminate|]). destruct Hin.
 Qed.
 
+(* ---------------------------------------------------------------- served = stored (C01 o C12, model/System.v) *)
+(* the public RPC reads the store the processor writes.  [System.db_store d]: the badger view (ordered key/value store of this file)
+   of the processor model's store d (newest first).  It answers a lookup exactly like the processor model's own lookup, for
+   representable identifiers *)
+Theorem C12_rpc_store_view_is_the_processor_store :
+  forall d i, Forall (fun p => idwf (System.vid_of (fst p))) d -> idwf (System.vid_of i) ->
+  get (System.db_store d) (key (System.vid_of i)) = Processor.dlookup i d.
+Proof. exact SystemProofs.db_store_get_exact. Qed.
+
+(* whatever GetSignedVAA of ANY node returns after ANY network history (N guardians, adversarial network: model/System.v), for any
+   request, is byte for byte the wire form of a VAA that carries a valid quorum of a guardian set that node learned from chain, stored
+   under the key the request renders to — the VAA with exactly the requested identifier when that VAA's identifier is representable *)
+Theorem C12_served_by_any_node_is_a_stored_quorum_valid_vaa :
+  forall recover keccak gov_chain gov_addr owns signs N xs i st ec ahex tc sq b,
+    Forall SystemProofs.nop_wf xs ->
+    nth_error (System.nodes (fst (System.nrun recover keccak gov_chain gov_addr owns signs (System.ninit N) xs))) i = Some st ->
+    System.serve st ec ahex tc sq = ROk b ->
+    exists a v g, decode_emitter ahex = Some a /\ b = marshal v /\
+      key (id_of v) = key (rpc_id ec a tc sq) /\
+      (idwf (id_of v) -> 0 <= sq -> id_of v = rpc_id ec a tc sq) /\
+      In g (SystemProofs.net_learned i xs) /\ ProcSpec.qvalid recover keccak v (Processor.keys g).
+Proof. exact SystemProofs.served_is_quorum_valid. Qed.
+
+(* non-vacuity: the two-guardian network history of C01's example; afterwards node 1 (which received the VAA from node 0) serves it *)
+Definition nx_owns (i : nat) : bytes := repeat (byte_of_Z (Z.of_nat i + 1)) 20.
+Definition nx_signs (i : nat) (d : bytes) : bytes := nx_owns i ++ repeat x00 45.
+Definition nx_G : Processor.gset := {| Processor.keys := [nx_owns 0; nx_owns 1]; Processor.gidx := 3 |}.
+Definition nx_msg : msgpub := {| m_tx := [x07]; m_ts := 1700000000; m_tns := 0; m_nonce := 1; m_seq := 5; m_cl := 1;
+                                 m_echain := 2; m_tchain := 255; m_eaddr := repeat x02 32; m_payload := [x01; x02] |}.
+Definition nx_hist : list System.nop :=
+  [System.NEnv 0 (System.ESetGS nx_G); System.NEnv 1 (System.ESetGS nx_G); System.NEnv 1 (System.EMsg nx_msg);
+   System.NEnv 0 (System.EMsg nx_msg); System.NDeliver 0 0; System.NLoop 0 0; System.NDeliver 1 2].
+Example C12_served_example :
+  let n := fst (System.nrun (fun h s => Some (firstn 20 s)) (fun _ => repeat x00 32) 1 (repeat x00 32) nx_owns nx_signs (System.ninit 2) nx_hist) in
+  match nth_error (System.nodes n) 1, nth_error (System.pool n) 2 with
+  | Some st, Some (System.GVaa b) => System.serve st 2 (hex (repeat x02 32)) 255 5 = ROk b /\ System.serve st 2 (hex (repeat x02 32)) 255 6 = RErr RNotFound
+  | _, _ => False
+  end.
+Proof. vm_compute. split; reflexivity. Qed.
+
 Print Assumptions C12_key_injective.
 Print Assumptions C12_get_put.
 Print Assumptions C12_lookup_exact.
@@ -165,3 +206,5 @@ Print Assumptions C12_find_missing_exact.
 Print Assumptions C12_missing_id_is_key_text.
 Print Assumptions C12_gov_batch_exact.
 Print Assumptions C12_rpc_gov_batch.
+Print Assumptions C12_rpc_store_view_is_the_processor_store.
+Print Assumptions C12_served_by_any_node_is_a_stored_quorum_valid_vaa.
